@@ -387,6 +387,7 @@ pub fn property() -> Property {
             "which elements a slice / flatten / object wildcard iterates over is computed from the left result by the harness (Python slice rule, one-level flatten, values in key order)".into(),
             "when several parts fail, only the presence of an error is compared".into(),
         ],
-        subs: vec![Sub::Bytes(BytesSub { name: "compound", f: compound, max_len: 1500, quick: Budget { threads: 8, cases: 6000 }, thorough: Budget { threads: 16, cases: 200_000 } })],
+        minimise: None,
+        subs: vec![Sub::Bytes(BytesSub { name: "compound", f: compound, max_len: 1500, quick: Budget { threads: 8, cases: 6000 }, thorough: Budget { threads: 16, cases: 200_000 }, keep_unreproducible: false })],
     }
 }
